@@ -5,6 +5,7 @@ mod pools;
 mod props;
 mod rng;
 mod scripted;
+mod sdkenv;
 mod wire;
 
 use driver::Driver;
@@ -208,30 +209,30 @@ fn main() {
             let seed: u64 = args[4].parse().expect("seed");
             let driver_path = args[5].clone();
             let out = args[6].clone();
-            let workers: usize = std::env::var("VERIF_WORKERS").ok().and_then(|v| v.parse().ok()).unwrap_or(8);
+            let workers: usize = std::env::var("VERIF_WORKERS").ok().and_then(|v| v.parse().ok()).unwrap_or(12);
             let budget_scale: f64 = std::env::var("VERIF_BUDGET_SCALE").ok().and_then(|v| v.parse().ok()).unwrap_or(1.0);
             let total = ((prop.budget(tier) as f64) * budget_scale) as usize;
             let merged = Arc::new(Mutex::new(Stats::default()));
             let start = std::time::Instant::now();
-            // fixed cases first (single worker, deterministic order)
-            {
-                let mut d = Driver::spawn(&driver_path);
-                let mut st = Stats::default();
-                let fixed = prop.fixed_cases(tier);
-                let every = (fixed.len() / 3).max(1);
-                for c in &fixed {
-                    process(prop, &mut d, c, &mut st, every);
-                }
-                merge(&mut merged.lock().unwrap(), st);
-            }
+            // fixed cases (exhaustive small scopes, regression corpus) are dealt round-robin to
+            // the workers and run before each worker's random cases
+            let fixed = Arc::new(prop.fixed_cases(tier));
             std::thread::scope(|s| {
                 for w in 0..workers {
                     let merged = merged.clone();
                     let driver_path = driver_path.clone();
+                    let fixed = fixed.clone();
                     s.spawn(move || {
                         let mut d = Driver::spawn(&driver_path);
                         let mut rng = Rng::new(seed, w as u64 + 1);
                         let mut st = Stats::default();
+                        let mine = fixed.len() / workers + 1;
+                        let every = (mine / 2).max(1);
+                        let mut k = w;
+                        while k < fixed.len() {
+                            process(prop, &mut d, &fixed[k], &mut st, every);
+                            k += workers;
+                        }
                         let n = total / workers + if w < total % workers { 1 } else { 0 };
                         let every = (n / 3).max(1);
                         for _ in 0..n {
